@@ -67,7 +67,7 @@ Definition holds_on (c : case) : bool :=
   match c with
   | CSan q cap obs =>
       match obs with
-      | SOk s => negb (mem 59 s) && starts_select_or_with s
+      | SOk s => negb (mem 59 s) && starts_select_or_with s && has_limit s   (* single SELECT/WITH statement carrying a row limit *)
       | _ => true
       end
   | CFmt cc rc bc cols rows obs =>
